@@ -54,7 +54,11 @@ var i1Cosmetic = []string{
 // hosts lines, bare domains, cosmetic rules, comments, invalid lines, padded and mutated lines.
 func i1Line(r *rng, names []string, dns bool) string {
 	var t string
-	switch r.n(20) {
+	switch r.n(22) {
+	case 20, 21:
+		// R2: a NETWORK rule with a `#` followed by a marker-like byte (`#?`, `#@`, `#%`, `#$`) -- not a cosmetic rule,
+		// so IgnoreCosmetic must not drop it
+		t = r2NearCosmeticLine(r)
 	case 0, 1, 2, 3, 4, 5:
 		if dns {
 			t = c02GenLine(r, names)
@@ -150,6 +154,18 @@ func i1Build(r *rng, dns bool) *i1Scenario {
 		sc.all = append(sc.all, t)
 		l := r.n(nLists)
 		bodies[l] = append(bodies[l], t)
+	}
+	for l := range bodies {
+		if r.chance(1, 4) {
+			// R2: the list starts with a multi-byte sequence (UTF-8 byte order mark, non-ASCII title): the offsets of
+			// all its rules depend on the byte length of this line
+			t := r2FirstLineInert(r, names)
+			if r.chance(1, 8) {
+				t = r2FirstLine(r)
+			}
+			bodies[l] = append([]string{t}, bodies[l]...)
+			sc.all = append(sc.all, t)
+		}
 	}
 	var ls []filterlist.RuleList
 	var note []string
